@@ -244,7 +244,72 @@ class _TW:
         return textwrap.wrap(text, width)
 
 
-RUNS = (((0, 0), (3, 0)), ((5, 1), (6, 1)))      # (dx1, row), (dx2, row): a run of 3 modules in row 0, one module in row 1
+# (dx1, row), (dx2, row): a run of 3 modules in row 0, one module in row 1, nothing in row 2 (an all-light row), two runs in row 3,
+# nothing in rows 4 and 5, one run in row 6
+RUNS = (((0, 0), (3, 0)), ((5, 1), (6, 1)), ((1, 3), (2, 3)), ((4, 3), (7, 3)), ((0, 6), (2, 6)))
+
+
+def _numtok(t):
+    try:
+        return float(t)
+    except ValueError:
+        return None
+
+
+def _segs_postfix(tokens, ops):
+    """Absolute segments drawn by a postfix token stream; ops: token -> 'M' (move to), 'm' (move by), 'L' (line to), 'l' (line by)."""
+    stack, pos, segs = [], None, []
+    for t in tokens:
+        v = _numtok(t)
+        if v is not None:
+            stack.append(v)
+            continue
+        kind = ops.get(t)
+        if kind is None or len(stack) < 2:
+            return f'unexpected token {t!r}'
+        y, x = stack.pop(), stack.pop()
+        if kind in ('m', 'l') and pos is None:
+            return f'{t!r} before any absolute position'
+        new = (x, y) if kind in ('M', 'L') else (pos[0] + x, pos[1] + y)
+        if kind in ('L', 'l'):
+            segs.append((pos, new))
+        pos = new
+    return segs if not stack else f'operands left over: {stack}'
+
+
+def _segs_svg(d):
+    """Absolute segments of an SVG path made of M / m / h (what the writer emits for runs)."""
+    import re
+    toks = re.findall(r'[A-Za-z]|-?\d*\.?\d+', d)
+    pos, segs, i = None, [], 0
+    while i < len(toks):
+        c = toks[i]
+        try:
+            if c == 'M':
+                pos = (float(toks[i + 1]), float(toks[i + 2]))
+                i += 3
+            elif c == 'm':
+                pos = (pos[0] + float(toks[i + 1]), pos[1] + float(toks[i + 2]))
+                i += 3
+            elif c == 'h':
+                new = (pos[0] + float(toks[i + 1]), pos[1])
+                segs.append((pos, new))
+                pos = new
+                i += 2
+            elif c == 'H':
+                new = (float(toks[i + 1]), pos[1])
+                segs.append((pos, new))
+                pos = new
+                i += 2
+            else:
+                return f'unexpected path command {c!r}'
+        except (IndexError, ValueError, TypeError):
+            return f'malformed path near {toks[i:i + 3]}'
+    return segs
+
+
+def _want_segs(x0, y0, ydir, k=1):
+    return [((k * (x0 + a), k * (y0 + ydir * r1)), (k * (x0 + b_), k * (y0 + ydir * r2))) for (a, r1), (b_, r2) in RUNS]
 
 
 def _render(fx, it, writer, scale, dark, light, border=None, size=21, **extra):
@@ -276,7 +341,7 @@ def _num(x):
 SCALES = (0.5, 1, 2, 3.3)
 
 
-@rule('C10', 'R2', 30, 'SVG / EPS / PDF / TeX document structure (symbol abstracted to two marker runs): page = (size+2b)*scale, transform iff scale != 1, runs in module units at the border offset, background fills the page, colours')
+@rule('C10', 'R2', 30, 'SVG / EPS / PDF / TeX document structure (symbol abstracted to marker runs with all-light rows between them; the drawing is decoded into segments): page = (size+2b)*scale, transform iff scale != 1, runs in module units at the border offset, background fills the page, colours')
 def r2(fx):
     import re
     it = Interp(max_steps=5_000_000)
@@ -300,9 +365,8 @@ def r2(fx):
                     probs.append(f'scale transform {tr} although scale is 1')
                 paths = re.findall(r'<path([^>]*) d="([^"]+)"/>', txt)
                 stroke = [p for p in paths if 'stroke=' in p[0]]
-                want_d = f'M{b} {b}.5h3m2 1h1'
-                if len(stroke) != 1 or stroke[0][1] != want_d:
-                    probs.append(f'dark path {stroke}, expected d="{want_d}"')
+                if len(stroke) != 1 or _segs_svg(stroke[0][1]) != _want_segs(b, b + .5, 1):
+                    probs.append(f'dark path {[(p_[1], _segs_svg(p_[1])) for p_ in stroke][:1]}, expected the runs {_want_segs(b, b + .5, 1)}')
                 elif f'stroke="{"#000" if dark == "#000" else "#00f"}"' not in stroke[0][0]:
                     probs.append(f'stroke colour in {stroke[0][0]}')
                 fill = [p for p in paths if 'fill=' in p[0]]
@@ -337,9 +401,9 @@ def r2(fx):
                         probs.append('background after the scale')
                 mv = [i for i, l in enumerate(lines) if ' moveto ' in l]
                 y0 = size + b - .5
-                want_path = f'{b} {y0} moveto 3 0 l 2 -1 m 1 0 l'
-                if len(mv) != 1 or lines[mv[0]] != want_path:
-                    probs.append(f'path {[lines[i] for i in mv]}, expected {want_path}')
+                got_segs = _segs_postfix(lines[mv[0]].split(), {'moveto': 'M', 'm': 'm', 'l': 'l'}) if len(mv) == 1 else None
+                if got_segs != _want_segs(b, y0, -1):
+                    probs.append(f'path {[lines[i] for i in mv]} draws {got_segs}, expected the runs {_want_segs(b, y0, -1)}')
                 elif sc_lines and mv[0] < sc_lines[0]:
                     probs.append('path before the scale')
                 col = [l for l in lines if l.endswith('setrgbcolor')]
@@ -369,9 +433,13 @@ def r2(fx):
                     want += f'{scale} 0 0 {scale} 0 0 cm '
                 if dark != '#000':
                     want += '0.0 0.0 1.0 RG '
-                want += f'1 0 0 1 {b} {size + b - .5} cm 0 0 m 3 0 l 5 -1 m 6 -1 l S'
-                if content != want:
-                    probs.append(f'content stream `{content}`, expected `{want}`')
+                want += f'1 0 0 1 {b} {size + b - .5} cm '
+                if not content.startswith(want) or not content.endswith(' S'):
+                    probs.append(f'content stream `{content[:120]}`, expected `{want}<runs> S`')
+                else:
+                    got_segs = _segs_postfix(content[len(want):-2].split(), {'m': 'M', 'l': 'L'})
+                    if got_segs != _want_segs(0, 0, -1):
+                        probs.append(f'content stream draws {got_segs}, expected the runs {_want_segs(0, 0, -1)}')
                 yield ob(f'PDF {tag}', not probs, fx.fn('writers', 'write_pdf'), got='; '.join(probs) or 'as required', want='as required')
         # ---------------- TeX (no light colour)
         for dark in ('black', 'blue'):
@@ -379,11 +447,12 @@ def r2(fx):
             probs = []
             if f'\\pgfsetlinewidth{{{scale}pt}}' not in txt:
                 probs.append(f'line width {re.findall(r"pgfsetlinewidth[^ ]*", txt)}')
-            pts = re.findall(r'\\pgfqpoint\{([^}]*)\}\{([^}]*)\}', txt)
-            want_pts = [(f'{b * scale}pt', f'{-b * scale}pt'), (f'{(b + 3) * scale}pt', f'{-b * scale}pt'),
-                        (f'{(b + 5) * scale}pt', f'{(-b - 1) * scale}pt'), (f'{(b + 6) * scale}pt', f'{(-b - 1) * scale}pt')]
-            if pts != want_pts:
-                probs.append(f'points {pts}, expected {want_pts}')
+            pts = re.findall(r'\\pgfpath(moveto|lineto)\{\\pgfqpoint\{([^}]*)pt\}\{([^}]*)pt\}\}', txt)
+            toks = [t for kind, x_, y_ in pts for t in (x_, y_, kind)]
+            got_segs = _segs_postfix(toks, {'moveto': 'M', 'lineto': 'L'})
+            want_segs = [((float(f'{(b + a) * scale}'), float(f'{(-b - r1) * scale}')), (float(f'{(b + b_) * scale}'), float(f'{(-b - r2) * scale}'))) for (a, r1), (b_, r2) in RUNS]
+            if got_segs != want_segs or len(pts) != len(re.findall(r'pgfqpoint', txt)):
+                probs.append(f'points {pts[:4]} draw {got_segs}, expected {want_segs}')
             if (dark != 'black') != (f'\\color{{{dark}}}' in txt):
                 probs.append('colour command')
             yield ob(f'TeX scale={scale} dark={dark}', not probs, fx.fn('writers', 'write_tex'), got='; '.join(probs) or 'as required', want='as required')
@@ -401,7 +470,7 @@ def r2(fx):
                     probs.append(f'scale transform {tr}, expected one scale({scale})')
                 paths = re.findall(r'<path([^>]*) d="([^"]+)"/>', txt)
                 stroke = [p_ for p_ in paths if 'stroke=' in p_[0]]
-                if len(stroke) != 1 or stroke[0][1] != f'M{b} {b}.5h3m2 1h1':
+                if len(stroke) != 1 or _segs_svg(stroke[0][1]) != _want_segs(b, b + .5, 1):
                     probs.append(f'dark path {stroke}')
                 fill = [p_ for p_ in paths if 'fill=' in p_[0]]
                 if (light is None and fill) or (light is not None and (len(fill) != 1 or fill[0][1] != f'M0 0h{n}v{n}h-{n}z')):
@@ -416,3 +485,11 @@ def r2(fx):
     txt, _ = _render(fx, it, 'write_svg', 2, '#000', None, unit='mm')
     yield ob('SVG unit: width/height carry the unit, viewBox gives the user units', 'width="58mm" height="58mm"' in txt and 'viewBox="0 0 58 58"' in txt,
              fx.fn('writers', 'write_svg'), got=re.findall(r'<svg[^>]*>', txt), want='width="58mm" height="58mm" viewBox="0 0 58 58"')
+
+
+@rule('C10', 'R9', 12, 'SVG: the dark modules are painted in the requested colour, alpha channel included (fully transparent = not painted); the light colour fills the page (C11.R8)')
+def r9(fx):
+    from . import p11
+    for o in p11.r8(fx):
+        if o.key.startswith('SVG') and ("'dark'" in o.key or o.key.startswith('SVG {} ')):
+            yield o
